@@ -365,6 +365,19 @@ fn normalize_completion_ty(ty: tast::Ty) -> tast::Ty {
     }
 }
 
+/// `x.m(..)` passes `x` as the first argument, so only functions whose first
+/// parameter is the receiver's type (constructor) are methods of `x`.
+fn takes_receiver(method_ty: &tast::Ty, receiver_ty: &tast::Ty) -> bool {
+    let tast::Ty::TFunc { params, .. } = method_ty else {
+        return false;
+    };
+    params.first().is_some_and(|first| {
+        first == receiver_ty
+            || (type_constructor_name(first).is_some()
+                && type_constructor_name(first) == type_constructor_name(receiver_ty))
+    })
+}
+
 fn completions_for_type(genv: &GlobalTypeEnv, ty: &tast::Ty) -> Vec<DotCompletionItem> {
     let mut items = Vec::new();
 
@@ -387,28 +400,37 @@ fn completions_for_type(genv: &GlobalTypeEnv, ty: &tast::Ty) -> Vec<DotCompletio
         .inherent_impls
         .get(&crate::env::InherentImplKey::Exact(ty.clone()))
     {
-        methods.extend(impl_def.methods.iter().map(|(method_name, method_scheme)| {
-            DotCompletionItem {
-                name: method_name.clone(),
-                kind: DotCompletionKind::Method,
-                detail: Some(method_scheme.ty.to_pretty(80)),
-            }
-        }));
+        methods.extend(
+            impl_def
+                .methods
+                .iter()
+                .filter(|(_, method_scheme)| takes_receiver(&method_scheme.ty, ty))
+                .map(|(method_name, method_scheme)| DotCompletionItem {
+                    name: method_name.clone(),
+                    kind: DotCompletionKind::Method,
+                    detail: Some(method_scheme.ty.to_pretty(80)),
+                }),
+        );
     }
-    if let tast::Ty::TApp { ty, .. } = ty {
+    if let tast::Ty::TApp { ty: base_ty, .. } = ty {
+        let ty = base_ty;
         let base_name = ty.get_constr_name_unsafe();
         if let Some(impl_def) = genv
             .trait_env
             .inherent_impls
             .get(&crate::env::InherentImplKey::Constr(base_name))
         {
-            methods.extend(impl_def.methods.iter().map(|(method_name, method_scheme)| {
-                DotCompletionItem {
-                    name: method_name.clone(),
-                    kind: DotCompletionKind::Method,
-                    detail: Some(method_scheme.ty.to_pretty(80)),
-                }
-            }));
+            methods.extend(
+                impl_def
+                    .methods
+                    .iter()
+                    .filter(|(_, method_scheme)| takes_receiver(&method_scheme.ty, ty))
+                    .map(|(method_name, method_scheme)| DotCompletionItem {
+                        name: method_name.clone(),
+                        kind: DotCompletionKind::Method,
+                        detail: Some(method_scheme.ty.to_pretty(80)),
+                    }),
+            );
         }
     }
     methods.sort_by(|a, b| a.name.cmp(&b.name));
